@@ -344,3 +344,51 @@ def state_outputs(spec):
     """outputs dict requesting every state variable by explicit path: {label: path}"""
     net = RefNet(spec)
     return {f'o{i}': n for i, n in enumerate(net.state_names)}
+
+
+def gen_aliased(rng, uniq='', hier=None, build='python', libs=('lin', 'leak', 'sat')):
+    """circuit with aliasing: one OperatorTemplate used by several NodeTemplates (with and without per-node overrides),
+    one NodeTemplate object under several node keys (and in several sub-circuits)."""
+    kinds = [rng.choice(libs) for _ in range(rng.randint(1, 2))]
+    spec = {'name': 'c' + uniq, 'build': build, 'ops': {}, 'nts': {}, 'edges': []}
+    for k in sorted(set(kinds)):
+        spec['ops'][k + uniq] = {'lib': k, 'name': k + uniq, 'defaults': dict(LIB[k]['defaults'])}
+    ntk = []
+    for i in range(rng.randint(1, 3)):
+        k = rng.choice(sorted(set(kinds)))
+        var = {}
+        if rng.random() < 0.6:
+            for c in rng.sample(LIB[k]['const'] + LIB[k]['state'], rng.randint(1, len(LIB[k]['const']) + 1)):
+                var[c] = _grid(rng, 0.25, 3.0, 16)
+        key = f'nt{i}{uniq}'
+        spec['nts'][key] = {'name': key, 'ops': [k + uniq], 'var': ({k + uniq: var} if var else {})}
+        ntk.append(key)
+    n = rng.randint(2, 5)
+    names = [f'p{i}' for i in range(n)]
+    assign = {nm: rng.choice(ntk) for nm in names}
+    kind_of = {nm: spec['ops'][spec['nts'][assign[nm]]['ops'][0]]['lib'] for nm in names}
+
+    def mk_edges(paths, m, cross=None):
+        out, seen = [], set()
+        for _ in range(m):
+            s, t = rng.choice(paths), rng.choice(paths)
+            if (s, t) in seen or (cross and s.split('/')[0] == t.split('/')[0]):
+                continue
+            seen.add((s, t))
+            sk, tk = kind_of[s.split('/')[-1]], kind_of[t.split('/')[-1]]
+            out.append([f'{s}/{sk}{uniq}/{LIB[sk]["out"]}', f'{t}/{tk}{uniq}/{LIB[tk]["in"]}',
+                        {'weight': (_grid(rng, -2.0, 2.0, 32) or 0.75)}])
+        return out
+    if hier is None:
+        hier = rng.random() < 0.4
+    if hier and n >= 2:
+        cut = rng.randint(1, n - 1)
+        groups = {'ca': names[:cut], 'cb': names[cut:]}
+        spec['circuits'] = {cn: {'name': cn + uniq, 'nodes': {m: assign[m] for m in ms},
+                                 'edges': mk_edges(ms, rng.randint(0, 2))} for cn, ms in groups.items()}
+        allp = [f'{cn}/{m}' for cn, ms in groups.items() for m in ms]
+        spec['edges'] = mk_edges(allp, rng.randint(0, 3), cross=True)
+    else:
+        spec['nodes'] = assign
+        spec['edges'] = mk_edges(names, rng.randint(0, 4))
+    return spec
